@@ -37,6 +37,7 @@ type c17sys struct {
 	flags   uint16
 	size    int
 	tcpMode int
+	socks5  bool // Opt.Socks5 is set (not implemented for UDP upstreams: both legs must still go to the server itself)
 	q       []byte
 	udpRep  []byte
 	tcpRep  []byte
@@ -55,6 +56,12 @@ var c17dialErr = errors.New("connection refused (injected)")
 func (k c17sink) Dial(ctx context.Context, network, addr string) (stdnet.Conn, error) {
 	s := k.s
 	s.dials = append(s.dials, network+" "+addr)
+	if addr != "192.0.2.1:5353" {
+		// nothing listens anywhere else; the dial itself is what gets judged (and an
+		// uninstrumented SOCKS5 client must not start a handshake with goroutines of
+		// its own on a scheduler-owned connection)
+		return nil, c17dialErr
+	}
 	switch network {
 	case "udp":
 		a, _ := fk.NewPipe("udp", true)
@@ -114,7 +121,11 @@ func (k c17sink) DialUDP(network string, laddr, raddr *stdnet.UDPAddr) (stdnet.C
 func (s *c17sys) run() {
 	vnet.SetSink(c17sink{s})
 	s.q = fk.Query(0x4D53, "c17.example.", 1)
-	u, err := NewUpstream("udp://192.0.2.1:5353", Opt{Logger: zap.NewNop()})
+	opt := Opt{Logger: zap.NewNop()}
+	if s.socks5 {
+		opt.Socks5 = "192.0.2.99:1080"
+	}
+	u, err := NewUpstream("udp://192.0.2.1:5353", opt)
 	if err != nil {
 		panic(err)
 	}
@@ -132,7 +143,7 @@ func (s *c17sys) run() {
 // judge returns an outcome class and an optional violation (oracle, description).
 func (s *c17sys) judge(x *vs.Exec) (string, string, string) {
 	tc := s.flags&0x0200 != 0
-	desc := fmt.Sprintf("udp reply flags=%#04x size=%d tcpMode=%d -> err=%v resp=%d bytes dials=%v tcpQueries=%d", s.flags, s.size, s.tcpMode, s.err, len(s.resp), s.dials, len(s.tcpGot))
+	desc := fmt.Sprintf("udp reply flags=%#04x size=%d tcpMode=%d socks5=%v -> err=%v resp=%d bytes dials=%v tcpQueries=%d", s.flags, s.size, s.tcpMode, s.socks5, s.err, len(s.resp), s.dials, len(s.tcpGot))
 	if x.Panic != "" {
 		return "panic", "panic", x.Panic + "\n" + desc
 	}
@@ -198,9 +209,10 @@ func TestVerifC17a(t *testing.T) {
 		Flags   uint16 `json:"flags"`
 		Size    int    `json:"size"`
 		TcpMode int    `json:"tcp_mode"`
+		Socks5  bool   `json:"socks5,omitempty"`
 	}
 	runOne := func(c in) (string, string, string) {
-		s := &c17sys{flags: c.Flags, size: c.Size, tcpMode: c.TcpMode}
+		s := &c17sys{flags: c.Flags, size: c.Size, tcpMode: c.TcpMode, socks5: c.Socks5}
 		x := vs.Run1(vs.Config{Horizon: time.Minute}, s.run)
 		res.Transitions += int64(x.Events)
 		return s.judge(x)
@@ -224,7 +236,7 @@ func TestVerifC17a(t *testing.T) {
 		for f := 0; f < 65536; f++ {
 			for _, sz := range c17Sizes {
 				for m := 0; m < 3; m++ {
-					cases = append(cases, in{uint16(f), sz, m})
+					cases = append(cases, in{uint16(f), sz, m, false})
 				}
 			}
 		}
@@ -233,19 +245,28 @@ func TestVerifC17a(t *testing.T) {
 		// all 65536 flag values with one size and an answering TCP side; every
 		// value of byte 2 x 4 values of byte 3 with every size and TCP behaviour
 		for f := 0; f < 65536; f++ {
-			cases = append(cases, in{uint16(f), 512, c17TcpAnswers})
+			cases = append(cases, in{uint16(f), 512, c17TcpAnswers, false})
 		}
 		for b2 := 0; b2 < 256; b2++ {
 			for _, b3 := range []int{0x00, 0x80, 0x0F, 0xFF} {
 				for _, sz := range c17Sizes {
 					for m := 0; m < 3; m++ {
-						cases = append(cases, in{uint16(b2<<8 | b3), sz, m})
+						cases = append(cases, in{uint16(b2<<8 | b3), sz, m, false})
 					}
 				}
 			}
 		}
 		res.Bounds["flags"] = "all 65536 values (size 512, TCP answers) + all 256 values of byte 2 x {00,80,0F,FF} x sizes x TCP behaviours"
 	}
+	// Opt.Socks5 set (the forward plugin copies its global socks5 setting into every upstream)
+	for b2 := 0; b2 < 256; b2++ {
+		for _, sz := range c17Sizes {
+			for m := 0; m < 3; m++ {
+				cases = append(cases, in{uint16(b2<<8 | 0x80), sz, m, true})
+			}
+		}
+	}
+	res.Bounds["socks5"] = "Opt.Socks5 set: all 256 values of byte 2 x sizes x TCP behaviours"
 	res.Bounds["sizes"] = c17Sizes
 	res.Bounds["tcp_side"] = []string{"answers", "refuses connection", "fails mid-exchange"}
 	for i, c := range cases {
@@ -286,6 +307,7 @@ func TestVerifC17b(t *testing.T) {
 			sys.flags = flagsMenu[vs.Choose(len(flagsMenu))]
 			sys.size = c17Sizes[vs.Choose(2)]
 			sys.tcpMode = vs.Choose(3)
+			sys.socks5 = vs.Choose(2) == 1
 			sys.run()
 		},
 		Check: func(x *vs.Exec) (string, *vs.Violation) {
